@@ -96,6 +96,9 @@ TOp == /\ Is("op")
                        ELSE e.err = x[1] /\ e.res = x[2]
           IN /\ (IF e.op \in {"Open"} THEN st = "closed" ELSE st = "open")
              /\ Must(IF isB THEN "bres" ELSE IF e.op = "Open" THEN "open" ELSE "res", okRes)
+             \* C17: Merge is never refused because of the counters (ratio / free-space precondition of mergeCheck:
+             \* the databases of the drivers are far below both thresholds)
+             /\ Must("mergeok", e.op = "Merge" => e.err \notin {"nospace", "ratio"})
              /\ model' = IF e.err = "ok" THEN x[3] ELSE model
              /\ batch' = IF e.err = "ok" \/ e.op = "Commit" THEN x[4] ELSE batch
              /\ st' = IF e.op = "Open" THEN (IF e.err = "ok" THEN "open" ELSE "closed")
